@@ -49,6 +49,8 @@ def distance_to_similarity(D, r=None, a=None, method='exponential', return_param
                 r = np.max(D)
             else:
                 r = -np.quantile(D, cover_quantile) / np.log(cover_quantile_target)
+            if r == 0:
+                r = 1  # all distances are zero
         S = np.exp(-D / r)
     elif method == 'gaussian':
         if r is None:
@@ -56,6 +58,8 @@ def distance_to_similarity(D, r=None, a=None, method='exponential', return_param
                 r = np.max(D)
             else:
                 r = np.sqrt(-np.quantile(D, cover_quantile) ** 2 / np.log(cover_quantile_target))
+            if r == 0:
+                r = 1  # all distances are zero
         S = np.exp(-np.power(D, 2) / r**2)
     elif method == 'reciprocal':
         if r is None:
@@ -69,6 +73,8 @@ def distance_to_similarity(D, r=None, a=None, method='exponential', return_param
     elif method == 'reverse':
         if r is None:
             r = np.min(D) + np.max(D)
+            if r == 0:
+                r = 1  # all distances are zero
         S = (r - D) / r
     else:
         raise ValueError("method={} is not supported".format(method))
@@ -157,6 +163,8 @@ def squash(X, r=None, base=None, x0=None, method="logistic", return_params=False
                 r = x0 / 6
             else:
                 r = -(np.quantile(X, cover_quantile)-x0) / np.log(1/cover_quantile_target-1)
+            if r == 0:
+                r = 1  # all values are equal to the midpoint
         if base is None:
             result = 1 / (1 + np.exp(-(X - x0) / r))
             Xz = 1 / (1 + np.exp(-(0 - x0) / r))
